@@ -210,7 +210,7 @@ def valid_server_name(config: Config, request: "Request") -> bool:
     host = ""
     for name, value in request.headers:
         if name.lower() == b"host":
-            host = value.decode()
+            host = value.decode(errors="replace")  # Octets that are not UTF-8 match no server name
             break
     return host in config.server_names
 
